@@ -22,7 +22,10 @@ class World:
     def __init__(self, n):
         from spacepackets.ecss.tc import PusTc
         from spacepackets.ecss.req_id import RequestId
-        self.tcs = {t: PusTc(service=17, subservice=1, apid=0x10 + t, seq_count=(t * 1237) % 16384) for t in range(1, n + 1)}
+        # (acknowledgement flags differ per telecommand, one asks for no success reports at all: the tracker's transition
+        # function does not look at them)
+        self.tcs = {t: PusTc(service=17, subservice=1, apid=0x10 + t, seq_count=(t * 1237) % 16384,
+                             ack_flags=[0b0000, 0b1111, 0b0001, 0b1000, 0b0110, 0b1001][(t - 1) % 6]) for t in range(1, n + 1)}
         self.rid = {t: RequestId.from_pus_tc(tc) for t, tc in self.tcs.items()}
         self.n = n
         self.flip = 0
@@ -185,9 +188,12 @@ def run(ctx):
                                   f"{short(e['dst'])}, code gave ret={short(obs)} state={short(post)}",
                               {"kind": "verif-path", "n": 2, "path": path + [ev], "expected_state": e["dst"],
                                "expected_ret": exp_ret})
+            # the real object is explored once per (specification state, kind and telecommand of the call that led there):
+            # hidden state that remembers the last call (a lookup cache) shows on the call after it, whatever state it is
             dk = canon(e["dst"])
-            if dk not in seen and not clause:
-                seen.add(dk)
+            nk = dk + "|" + str(ev.get("a")) + str(ev.get("t", ""))
+            if nk not in seen and not clause:
+                seen.add(nk)
                 stack.append((dk, v, path + [ev]))
     ctx.traces += n
     ctx.note(f"replayed {n} transitions ({len(seen)} states) of the emission configuration on real PusVerificator objects")
